@@ -27,6 +27,7 @@ def any_state(qual, free, recording=None):
     if recording is False: st.assume(act == NONE)
     st.wr(selfv, '_active_recording', act); st.wr(selfv, '_active_recording_parameters', par); st.wr(selfv, '_playback_recording', pb)
     st.note(act, ('iface', 'Recording')); st.note(par, 'RecordingParameters'); st.note(pb, ('iface', 'Recording'))
+    st.g['stored_recordings'] = (pb.get_id(), pb_obj.get_id())
     st.g['old'] = dict(dmap=st.g['dmap'], ddom=st.g['ddom'], seq=st.g['seq'], active=act, params=par, pb=pb, force=st.rd(selfv, '_force_sample'),
                        counter=st.rd(selfv, '_invoke_counter'), enabled=st.rd(selfv, 'recording_enabled'), heap=dict(st.heap))
     assert st.sat()
@@ -53,7 +54,7 @@ def discard_recording(props=None):
         obl.append(Obl('C05/%s/active_recording_is_aborted_exactly_once_whatever_the_mode' % U, ALLP, s,
                        z3.If(had, z3.And(z3.BoolVal(len(aborts) == 1), aborts[0][1] == old['active']) if aborts else z3.BoolVal(False), z3.BoolVal(len(aborts) == 0)), oc))
         obl.append(Obl('C05/%s/no_other_cassette_event' % U, ALLP, s, z3.BoolVal(not others), oc))
-        obl.append(Obl('C09/%s/recorder_reset_to_idle_recording' % U, ('C09', 'C05', 'C17'), s,
+        obl.append(Obl('C09/%s/recorder_reset_to_idle_recording' % U, ('C09', 'C05', 'C17', 'C03'), s,
                        z3.If(had, z3.And(s.rd(selfv, '_active_recording') == NONE, s.rd(selfv, '_active_recording_parameters') == NONE,
                                          s.rd(selfv, '_force_sample') == B(False), s.g['ddom'][Val.addr(cnt)] == z3.K(Val, False)),
                              unchanged(s, selfv, ALLF)), oc))
@@ -134,7 +135,7 @@ def reset_active_recording(props=None):
     paths = norm(ex.block(node.body, st)); obl = []; U = '_reset_active_recording'
     for s, oc in paths:
         cnt = s.rd(selfv, '_invoke_counter')
-        obl.append(Obl('C09/%s/resets_everything' % U, ('C09', 'C05', 'C17'), s,
+        obl.append(Obl('C09/%s/resets_everything' % U, ('C09', 'C05', 'C17', 'C03'), s,
                        z3.And(z3.BoolVal(oc[0] == 'return'), s.rd(selfv, '_active_recording') == NONE, s.rd(selfv, '_active_recording_parameters') == NONE,
                               s.rd(selfv, '_force_sample') == B(False), s.g['ddom'][Val.addr(cnt)] == z3.K(Val, False),
                               unchanged(s, selfv, ['_playback_recording', 'recording_enabled']), no_cassette_events(s)), oc))
